@@ -22,6 +22,11 @@ type InstrFn func(in ssa.Instruction) Facts
 // Must computes, per block, the facts that hold on entry on ALL paths from the function entry.
 // Unreachable blocks keep the top element.
 func Must(fn *ssa.Function, eg EdgeGen, gen, kill InstrFn) map[*ssa.BasicBlock]Facts {
+	return MustFrom(fn, 0, eg, gen, kill)
+}
+
+// MustFrom is Must with the facts that hold on entry to the function.
+func MustFrom(fn *ssa.Function, entry Facts, eg EdgeGen, gen, kill InstrFn) map[*ssa.BasicBlock]Facts {
 	const top = ^Facts(0)
 	in := map[*ssa.BasicBlock]Facts{}
 	for _, b := range fn.Blocks {
@@ -30,7 +35,7 @@ func Must(fn *ssa.Function, eg EdgeGen, gen, kill InstrFn) map[*ssa.BasicBlock]F
 	if len(fn.Blocks) == 0 {
 		return in
 	}
-	in[fn.Blocks[0]] = 0
+	in[fn.Blocks[0]] = entry
 	out := func(b *ssa.BasicBlock) Facts {
 		f := in[b]
 		for _, i := range b.Instrs {
@@ -74,10 +79,16 @@ func Must(fn *ssa.Function, eg EdgeGen, gen, kill InstrFn) map[*ssa.BasicBlock]F
 
 // May computes, per block, the facts that hold on entry on SOME path from the entry.
 func May(fn *ssa.Function, eg EdgeGen, gen, kill InstrFn) map[*ssa.BasicBlock]Facts {
+	return MayFrom(fn, 0, eg, gen, kill)
+}
+
+// MayFrom is May with the facts that may hold on entry.
+func MayFrom(fn *ssa.Function, entry Facts, eg EdgeGen, gen, kill InstrFn) map[*ssa.BasicBlock]Facts {
 	in := map[*ssa.BasicBlock]Facts{}
 	if len(fn.Blocks) == 0 {
 		return in
 	}
+	in[fn.Blocks[0]] = entry
 	out := func(b *ssa.BasicBlock) Facts {
 		f := in[b]
 		for _, i := range b.Instrs {
@@ -106,6 +117,9 @@ func May(fn *ssa.Function, eg EdgeGen, gen, kill InstrFn) map[*ssa.BasicBlock]Fa
 						f |= e
 					}
 				}
+			}
+			if b == fn.Blocks[0] {
+				f |= entry
 			}
 			if f != in[b] {
 				in[b] = f
